@@ -165,10 +165,10 @@ package udp
 //@   prop C09 C10
 //@   nopanic
 //@   requires c != nil && c.results != nil
-//@   requires [index_not_pending] !haskey(c.results, index)
 //@   modifies c.results[*], ghost.held[addr(c.lock)]
-//@   ensures [registered] haskey(c.results, index) && c.results[index] == resultChan
-//@   ensures [other_registrations_untouched] forall(k, k != index ==> haskey(c.results, k) == old(haskey(c.results, k)) && c.results[k] == old(c.results[k]))
+//@   ensures [never_overwrites_a_pending_call] stored == !old(haskey(c.results, index))
+//@   ensures [registered] stored ==> haskey(c.results, index) && c.results[index] == resultChan
+//@   ensures [other_registrations_untouched] forall(k, k != index || !stored ==> haskey(c.results, k) == old(haskey(c.results, k)) && c.results[k] == old(c.results[k]))
 //@   ensures [lock_released] ghost.held[addr(c.lock)] == 0
 
 //@ func (*conn).delete
@@ -234,7 +234,9 @@ package udp
 //@   modifies c.counter, c.results[*], ghost.held[addr(c.lock)], ghost.chansent[*], ghost.chanlen[*], ghost.chanrecv[*]
 //@   ensures [too_large_for_one_datagram_is_refused] len(request) > 65499 ==> err == core.ErrRequestEntityTooLarge && response == nil
 //@   ensures [index_is_15_bit] len(request) <= 65499 ==> 0 <= index && index < 32768
-//@   ensures [gave_up_leaves_no_entry] len(request) <= 65499 && err != nil && ghost.chanrecv[resultChan] == 0 ==> !haskey(c.results, index)
+//@   loop 1 invariant 0 <= index && index < 32768 && ghost.held[addr(c.lock)] == old(ghost.held[addr(c.lock)])
+//@   loop 1 invariant forall(k, !(haskey(c.results, k) && c.results[k] == resultChan))
+//@   ensures [gave_up_leaves_no_entry] len(request) <= 65499 && err != nil && ghost.chanrecv[resultChan] == 0 ==> !(haskey(c.results, index) && c.results[index] == resultChan)
 
 //@ type CleanFunc(index, resultChan)
 //@   nopanic
